@@ -6,7 +6,8 @@
 From Coq Require Import List NArith ZArith.
 From Falco Require Import Base.Bytes Gen.TokenTypes Model.ParseKinds Gen.ParserTables
   Model.ParseBase Model.Ast Model.ParseLit Model.ParseExpr Model.ParseStmt Model.ParseDecl Model.Yield
-  Proofs.ParseTables Proofs.ParseExprYield Proofs.ParseExprTotal Proofs.ParsePratt Proofs.ParseRoundtrip.
+  Proofs.ParseTables Proofs.ParseExprYield Proofs.ParseExprTotal Proofs.ParsePratt Proofs.ParseRoundtrip
+  Proofs.ParseLitFacts.
 Import ListNotations.
 Local Open Scope N_scope.
 
@@ -62,6 +63,36 @@ Theorem C02_parse_expr_no_crash :
   forall fok prec st, long_ok (toks st) = true -> parse_expr fok prec st <> PCrash.
 Proof. exact parse_expr_no_crash. Qed.
 
+(* Numeric literals keep their exact value: for a literal the lexer can produce (decimal digits, or
+   hex digits behind 0x / 0X) with magnitude u, ParseInteger returns u when u < 2^63, -2^63 when
+   u = 2^63 directly behind a unary minus, and fails otherwise. *)
+Theorem C02_int_literal_exact :
+  forall negated l base digits,
+    int_split l = (base, digits) -> 1 <= base -> digits <> [] -> forallb (digit_ok base) digits = true ->
+    let u := digits_value base 0 digits in
+    conv_integer negated l =
+      if u <? two63 then Some (Z.of_N u)
+      else if (u =? two63) && negated then Some (- Z.of_N two63)%Z
+      else None.
+Proof. exact int_literal_exact. Qed.
+
+(* %XX / %uXXXX / %u{...} escapes decode only in double-quoted strings: any other STRING token is
+   taken verbatim, in particular the body of a long string of a lexer-shaped stream *)
+Theorem C02_escape_only_in_dquote :
+  forall st, (off (cur st) =? 2) = false -> pstring st = POK (lit (cur st)).
+Proof. exact escape_only_in_dquote. Qed.
+
+Theorem C02_long_string_raw :
+  forall st o s c v st',
+    typ (cur st) = T_OPEN_LONG_STRING -> long_ok (toks st) = true ->
+    plong st = POK (o, s, c, v, st') -> v = lit s /\ s = peek st.
+Proof. exact long_string_raw. Qed.
+
+(* decodeStringEscapes leaves text without `%`, NUL and non-ASCII bytes unchanged *)
+Theorem C02_decode_escapes_plain :
+  forall s, forallb plain s = true -> decode_escapes s = POK s.
+Proof. exact decode_escapes_plain. Qed.
+
 Print Assumptions C02_tables_are_documented.
 Print Assumptions C02_parse_expr_yield.
 Print Assumptions C02_pratt_roundtrip.
@@ -69,3 +100,7 @@ Print Assumptions C02_parse_expression_roundtrip.
 Print Assumptions C02_canonical_tree_unique.
 Print Assumptions C02_parse_expr_total.
 Print Assumptions C02_parse_expr_no_crash.
+Print Assumptions C02_int_literal_exact.
+Print Assumptions C02_escape_only_in_dquote.
+Print Assumptions C02_long_string_raw.
+Print Assumptions C02_decode_escapes_plain.
